@@ -1,6 +1,6 @@
 use crate::{
   prelude::*,
-  rc::{MutArc, RcDerefMut},
+  rc::{MutArc, RcDeref, RcDerefMut},
 };
 use std::time::Duration;
 
@@ -36,6 +36,8 @@ impl ThrottleEdge {
   }
 }
 
+type RcHandler = MutArc<Option<TaskHandle<NormalReturn<()>>>>;
+
 impl<Item, Err, O, S, SD, F> Observable<Item, Err, O> for ThrottleOp<S, SD, F>
 where
   Item: Clone,
@@ -44,7 +46,9 @@ where
   F: FnMut(&Item) -> Duration,
   ThrottleObserver<O, SD, Item, F>: Observer<Item, Err>,
 {
-  type Unsub = S::Unsub;
+  // the handle of the pending window task is part of the subscription, so
+  // that unsubscribing also cancels a trailing emission that is still due
+  type Unsub = ZipSubscription<S::Unsub, RcHandler>;
 
   fn actual_subscribe(self, observer: O) -> Self::Unsub {
     let Self {
@@ -54,14 +58,16 @@ where
       edge,
     } = self;
 
-    source.actual_subscribe(ThrottleObserver {
+    let task_handler: RcHandler = MutArc::own(None);
+    let u = source.actual_subscribe(ThrottleObserver {
       observer: MutArc::own(Some(observer)),
       edge,
       duration_selector,
       trailing_value: MutArc::own(None),
-      task_handler: TaskHandle::value_handle(NormalReturn::new(())),
+      task_handler: task_handler.clone(),
       scheduler,
-    })
+    });
+    ZipSubscription::new(u, task_handler)
   }
 }
 
@@ -76,7 +82,7 @@ pub struct ThrottleObserver<O, SD, Item, F> {
   edge: ThrottleEdge,
   duration_selector: F,
   trailing_value: MutArc<Option<Item>>,
-  task_handler: TaskHandle<NormalReturn<()>>,
+  task_handler: RcHandler,
 }
 
 impl<Item, Err, O, SD, F> Observer<Item, Err>
@@ -94,7 +100,12 @@ where
       if self.edge.tailing {
         *self.trailing_value.rc_deref_mut() = Some(value.clone());
       }
-      if self.task_handler.is_closed() {
+      let window_closed = self
+        .task_handler
+        .rc_deref()
+        .as_ref()
+        .map_or(true, |h| h.is_closed());
+      if window_closed {
         let delay = (self.duration_selector)(&value);
         if self.edge.leading {
           // the item that opens the window is emitted on the leading edge;
@@ -106,21 +117,26 @@ where
           throttle_task,
           (self.observer.clone(), self.trailing_value.clone()),
         );
-        self.task_handler = self.scheduler.schedule(task, Some(delay));
+        let handler = self.scheduler.schedule(task, Some(delay));
+        *self.task_handler.rc_deref_mut() = Some(handler);
       }
     }
   }
 
   fn error(self, err: Err) {
     self.observer.error(err);
-    self.task_handler.unsubscribe();
+    if let Some(handler) = self.task_handler.rc_deref_mut().take() {
+      handler.unsubscribe();
+    }
   }
 
   fn complete(mut self) {
     if let Some(value) = self.trailing_value.rc_deref_mut().take() {
       self.observer.next(value);
     }
-    self.task_handler.unsubscribe();
+    if let Some(handler) = self.task_handler.rc_deref_mut().take() {
+      handler.unsubscribe();
+    }
     self.observer.complete();
   }
 
